@@ -273,7 +273,9 @@ class GeminiServerProtocol(asyncio.Protocol):
             client_ip=self.peer_name[0] if self.peer_name else "unknown",
             status=response.status,
             path=response.url or "unknown",
-            body_size=len(response.body) if response.body else 0,
+            body_size=(
+                len(response.body) if isinstance(response.body, (str, bytes)) else 0
+            ),
             duration_ms=round(duration_ms, 2),
         )
 
